@@ -21,6 +21,9 @@ FOCUS = {
              'seq_in': 6},
     # obj.set(...) / constructors that touch several relationships at once, on the variants where a later part refuses
     'mix': {'setmix': 12, 'set': 6, 'create_in': 5, 'new': 8, 'remove': 3, 'add': 3, 'seq_probe': 3, 'del': 3},
+    # C23: many stored rows with links, then selects / navigation in later sessions (batch splitting, prefetch)
+    'load': {'new': 10, 'add': 8, 'rel': 6, 'create_in': 3, 'r_select': 9, 'r_coll': 6, 'r_attr': 5, 'r_todict': 2,
+             'commit': 2, 'del': 1, 'remove': 2},
     'order': {'new': 10, 'rel': 6, 'del': 5, 'add': 3, 'create_in': 4, 'flush': 1, 'late_link': 6, 'oflush': 2},
 }
 
@@ -61,6 +64,9 @@ def gen_case(seed, i, tier, focus='default', loading=False, tag='seq'):
             knobs['max_params_count'] = r.choice([2, 3, 5])
         knobs['nplus1'] = r.choice([None, 0, 1, 3])
         knobs['prefetch'] = r.chance(0.3)
+        if focus == 'load':
+            knobs['prefetch'] = r.chance(0.7)
+            knobs['max_params_count'] = r.choice([2, 2, 3, 5])
     variant = r.choice(list(seqschema.VARIANTS))
     if focus == 'order' and r.chance(0.35):
         variant = 'profile_pk'      # a primary key that is a reference: one more level of save-order dependencies
